@@ -207,6 +207,63 @@ def lmnn_value_grad(L, X, y, T, reg):
   return f, G, kink, n_active, n_inactive, mag
 
 
+def lmnn_targets_large(X, y, k):
+  """same as lmnn_targets, one vectorised row at a time (for hundreds of points)."""
+  X = np.asarray(X, dtype=float)
+  y = np.asarray(y)
+  n = len(X)
+  T = []
+  gap = float('inf')
+  for i in range(n):
+    same = np.flatnonzero((y == y[i]) & (np.arange(n) != i))
+    ds = ((X[same] - X[i]) ** 2).sum(axis=1)
+    order = np.lexsort((same, ds))
+    T.append(same[order[:k]].tolist())
+    if len(same) > k:
+      a, b = float(ds[order[k - 1]]), float(ds[order[k]])
+      gap = min(gap, (b - a) / max(b, 1e-300))
+  return T, gap
+
+
+def lmnn_value_grad_large(L, X, y, T, reg):
+  """documented LMNN objective and gradient, the sum over impostors l vectorised for each (i, j) - same
+  definition as lmnn_value_grad, independent of the library's impostor search."""
+  X = np.asarray(X, dtype=float)
+  y = np.asarray(y)
+  n, d = X.shape
+  Z = X.dot(L.T)
+  pull = push = mag = 0.0
+  Spull = np.zeros((d, d))
+  Spush = np.zeros((d, d))
+  kink = float('inf')
+  n_active = n_inactive = 0
+  for i in range(n):
+    other = np.flatnonzero(y != y[i])
+    Vil = X[i] - X[other]
+    dil = ((Z[i] - Z[other]) ** 2).sum(axis=1)
+    for j in T[i]:
+      vij = X[i] - X[j]
+      dij = float(((Z[i] - Z[j]) ** 2).sum())
+      pull += dij
+      mag += reg * dij
+      Spull += np.outer(vij, vij)
+      h = 1.0 + dij - dil
+      if len(h):
+        kink = min(kink, float(np.abs(h).min()))
+      act = h > 0
+      na = int(act.sum())
+      if na:
+        push += float(h[act].sum())
+        mag += (1 - reg) * float((1.0 + dij + dil[act]).sum())
+        Va = Vil[act]
+        Spush += na * np.outer(vij, vij) - Va.T.dot(Va)
+      n_active += na
+      n_inactive += len(h) - na
+  f = reg * pull + (1 - reg) * push
+  G = 2.0 * L.dot(reg * Spull + (1 - reg) * Spush)
+  return f, G, kink, n_active, n_inactive, mag
+
+
 def central_differences(fun, L, h):
   G = np.zeros_like(L)
   for idx in np.ndindex(*L.shape):
